@@ -109,6 +109,15 @@ func (nfs *Nfs) NFSPROC3_SETATTR(args nfstypes.SETATTR3args) nfstypes.SETATTR3re
 		util.DPrintf(1, "NFS SetAttr gid not supported %v\n", args)
 	}
 	if args.New_attributes.Size.Set_it {
+		// only regular files have a size a client may set
+		if ip.Kind != nfstypes.NF3REG {
+			if ip.Kind == nfstypes.NF3DIR {
+				errRet(op, &reply.Status, nfstypes.NFS3ERR_ISDIR)
+			} else {
+				errRet(op, &reply.Status, nfstypes.NFS3ERR_INVAL)
+			}
+			return reply
+		}
 		if uint64(args.New_attributes.Size.Size) > inode.MaxFileSize() {
 			errRet(op, &reply.Status, nfstypes.NFS3ERR_FBIG)
 			return reply
